@@ -233,6 +233,64 @@ func edgeOnly(from, to *ssa.BasicBlock) bool {
 // Facts returns the branch facts that dominate block b, nearest first.
 // Negations are normalised away (UnOp NOT flips polarity).
 func Facts(b *ssa.BasicBlock) []Fact {
+	out := baseFacts(b)
+	// `x := a && (b || c); if x {...}` lowers to an If on a phi of booleans:
+	// the phi being true (false) excludes the predecessors that feed the
+	// constant false (true), so the facts common to the remaining
+	// predecessors also hold.
+	seen := map[*ssa.Phi]bool{}
+	for i := 0; i < len(out) && i < 64; i++ {
+		ph, ok := out[i].Cond.(*ssa.Phi)
+		if !ok || seen[ph] {
+			continue
+		}
+		seen[ph] = true
+		var common []Fact
+		first := true
+		for ei, e := range ph.Edges {
+			if cb, isC := ConstBool(e); isC && cb != out[i].Pol {
+				continue // this predecessor cannot have been taken
+			}
+			pred := ph.Block().Preds[ei]
+			pf := baseFacts(pred)
+			// the edge pred->phi block itself may carry a fact
+			if len(pred.Instrs) > 0 {
+				if iff, ok := pred.Instrs[len(pred.Instrs)-1].(*ssa.If); ok && pred.Succs[0] != pred.Succs[1] {
+					for si, sblk := range pred.Succs {
+						if sblk == ph.Block() {
+							c, pol := normCond(iff.Cond, si == 0)
+							pf = append(pf, Fact{Cond: c, Pol: pol, If: iff})
+						}
+					}
+				}
+			}
+			if _, isC := ConstBool(e); !isC {
+				c, pol := normCond(e, out[i].Pol)
+				if _, isPhi := c.(*ssa.Phi); isPhi {
+					pf = append(pf, Fact{Cond: c, Pol: pol, If: out[i].If})
+				}
+			}
+			if first {
+				common, first = pf, false
+				continue
+			}
+			var keep []Fact
+			for _, a := range common {
+				for _, bf := range pf {
+					if a.Cond == bf.Cond && a.Pol == bf.Pol {
+						keep = append(keep, a)
+						break
+					}
+				}
+			}
+			common = keep
+		}
+		out = append(out, common...)
+	}
+	return out
+}
+
+func baseFacts(b *ssa.BasicBlock) []Fact {
 	var out []Fact
 	for d := b.Idom(); d != nil; d = d.Idom() {
 		if len(d.Instrs) == 0 {
@@ -1150,3 +1208,24 @@ func Before(a, b ssa.Instruction) bool {
 }
 
 func sortStrings(s []string) { sort.Strings(s) }
+
+// ConsistentEdge reports whether taking successor succ of block b is
+// compatible with the branch facts that dominate target: an edge asserting
+// the opposite polarity of a structurally identical condition lies on no
+// feasible path to target (assuming the operands are not written in between).
+func ConsistentEdge(b *ssa.BasicBlock, succ int, target *ssa.BasicBlock) bool {
+	iff, ok := b.Instrs[len(b.Instrs)-1].(*ssa.If)
+	if !ok {
+		return true
+	}
+	c, pol := normCond(iff.Cond, succ == 0)
+	for _, ft := range Facts(target) {
+		if ft.If == iff {
+			continue
+		}
+		if (ft.Cond == c || sameExpr(ft.Cond, c)) && ft.Pol != pol {
+			return false
+		}
+	}
+	return true
+}
